@@ -126,6 +126,7 @@ pub fn ast_opts(which: Which) -> Opts {
     // opening tags of block elements that span several lines (the README's layout)
     o.multiline_tag_pct = 12;
     o.close_attr_pct = 10;
+    o.bom_pct = 4;
     if which == Which::C04 {
         o.unwrap_tags_shared = true;
     }
@@ -311,6 +312,22 @@ pub fn oracle_ast(c: &AstCase, which: Which, obs: &mut Obs) -> Verdict {
                     Err(e) => vfail!("{e}"),
                 },
                 Err(p) => vfail!("list failed: {p}\n  src = {:?}", r.src),
+            }
+            // the same document with CRLF line ends (only when no tag spans several lines: CR is not an attribute separator):
+            // still nothing is ready - an unwrap-block that cannot be unwrapped has as few LINES between its tags as before
+            if r.elems.iter().all(|e| e.open_first_line == e.open_line) && r.src.contains('\n') {
+                let crlf = r.src.replace('\n', "\r\n");
+                match call_clean(&crlf, &cfg) {
+                    Ok(o) if o == crlf => {}
+                    Ok(o) => vfail!("nothing is ready but clean changed the CRLF version of the text{}", show(&crlf, &o)),
+                    Err(p) => vfail!("clean panicked on the CRLF version: {p}\n  src = {:?}", crlf),
+                }
+                match call_list(&crlf, &cfg, false, true).and_then(|js| parse_items(&js)) {
+                    Ok(items) if items.is_empty() => {}
+                    Ok(items) => vfail!("nothing is ready but list reports {} item(s) for the CRLF version\n  src = {:?}", items.len(), crlf),
+                    Err(e) => vfail!("list failed on the CRLF version: {e}\n  src = {:?}", crlf),
+                }
+                obs.class("crlf-version-checked");
             }
             let registered_pending = tr.decisions.iter().any(|d| *d == Decision::Pending);
             let consecutive_blank = r.src.contains("\n\n\n") || r.src.starts_with("\n\n");
@@ -637,7 +654,7 @@ pub fn check(ctx: &mut Ctx, id: &'static str) {
             }
         }
         Which::C04 => {
-            for c in ["has-pending-registered-element", "condition-holds-but-cannot-unwrap", "has-skip"] {
+            for c in ["has-pending-registered-element", "condition-holds-but-cannot-unwrap", "has-skip", "crlf-version-checked"] {
                 ctx.require_class(c);
             }
         }
